@@ -134,16 +134,19 @@ def rca_case(chunks, d, reduced):
             inner[a][b] = inner[a][b] + (X[i, a] - mu[a]) * (X[i, b] - mu[b])
     inner = [[inner[a][b] / float(N) for b in range(d)] for a in range(d)]
     total = _cov([X[i] for i in members], d, 1)
-    rec_is = _Rec(lambda C: (ctx.fresh('isq', (np.shape(C)[0],) * 2) if ctx.symbolic else R_orig_inv(C)))
+    # recorders at the LAPACK-level call sites: arbitrary answers of the documented shape in symbolic runs, the real routines in
+    # concrete runs (validation / replay), so that the call-site obligations are evaluated in both modes
     R_orig_inv = R._inv_sqrtm
+    rec_is = _Rec(lambda C: (ctx.fresh('isq', (np.shape(C)[0],) * 2) if ctx.symbolic else R_orig_inv(C)))
     X_in = X.copy()
-    olds = (R._inv_sqrtm,)
-    rec_lstsq = _Rec(lambda A, B, **k: (ctx.fresh('tmp', (d, d)),))
-    rec_eig = _Rec(lambda T: (ctx.fresh('ev', (d,)), ctx.fresh('evec', (d, d))))
+    rec_lstsq = _Rec(lambda A, B, **k: ((ctx.fresh('tmp', (d, d)),) if ctx.symbolic else np.linalg.lstsq(A, B, **k)))
+    rec_eig = _Rec(lambda T: ((ctx.fresh('ev', (d,)), ctx.fresh('evec', (d, d))) if ctx.symbolic else np.linalg.eig(T)))
     old_l, old_e, old_r = NP.linalg._impl.get('lstsq'), NP.linalg._impl.get('eig'), NP.linalg._impl.get('matrix_rank')
+    old_np = R.np
+    R._inv_sqrtm = rec_is
+    R.np = NP
+    NP.linalg._impl['lstsq'], NP.linalg._impl['eig'] = rec_lstsq, rec_eig
     if ctx.symbolic:
-      R._inv_sqrtm = rec_is
-      NP.linalg._impl['lstsq'], NP.linalg._impl['eig'] = rec_lstsq, rec_eig
       NP.linalg._impl['matrix_rank'] = lambda A, *a, **k: d     # full rank (well-formed data); the warning path is not the subject
     try:
       est = R.RCA(n_components=(1 if reduced else None))
@@ -151,26 +154,14 @@ def rca_case(chunks, d, reduced):
         warnings.simplefilter('ignore')
         r = est.fit(X_in, ch)
     finally:
-      R._inv_sqrtm = olds[0]
-      if ctx.symbolic:
-        for nm, o in (('lstsq', old_l), ('eig', old_e), ('matrix_rank', old_r)):
-          if o is None:
-            NP.linalg._impl.pop(nm, None)
-          else:
-            NP.linalg._impl[nm] = o
+      R._inv_sqrtm = R_orig_inv
+      R.np = old_np
+      for nm, o in (('lstsq', old_l), ('eig', old_e), ('matrix_rank', old_r)):
+        if o is None:
+          NP.linalg._impl.pop(nm, None)
+        else:
+          NP.linalg._impl[nm] = o
     ctx.require('callers_data_untouched', ctx.all_eq(X_in, X, tol=0.0))
-    if not ctx.symbolic:
-      ctx.require('components_real_valued', ctx.cond(np.isrealobj(est.components_) and est.components_.shape == ((1 if reduced else d), d)))
-      T = est.transform(np.asarray(X, float))
-      # within-chunk covariance of the transformed data is the identity
-      inn = np.zeros((T.shape[1],) * 2)
-      for c in sorted(set(chunks) - {-1}):
-        idx = [i for i in range(n) if chunks[i] == c]
-        Tc = T[idx] - T[idx].mean(0)
-        inn += Tc.T @ Tc
-      inn /= N
-      ctx.require('within_chunk_covariance_of_transformed_data_is_identity', ctx.cond(np.allclose(inn, np.eye(T.shape[1]), atol=1e-6)))
-      return
     ctx.require('fit_returns_self', ctx.cond(r is est))
     if not reduced:
       ctx.require('inverse_square_root_called_once', ctx.cond(len(rec_is.args) == 1))
@@ -194,7 +185,17 @@ def rca_case(chunks, d, reduced):
         return ctx.and_(*conds)
       ctx.require('total_covariance_is_that_of_the_original_chunk_points_up_to_scale', proportional(Tc, total))
       ctx.require('within_covariance_handed_to_the_generalised_problem_up_to_scale', proportional(Ic, inner))
-      vals, vecs = rec_eig.fn.__self__ if False else (None, None)
+    if not ctx.symbolic:
+      ctx.require('components_real_valued', ctx.cond(np.isrealobj(est.components_) and est.components_.shape == ((1 if reduced else d), d)))
+      T = est.transform(np.asarray(X, float))
+      # within-chunk covariance of the transformed data is the identity
+      inn = np.zeros((T.shape[1],) * 2)
+      for c in sorted(set(chunks) - {-1}):
+        idx = [i for i in range(n) if chunks[i] == c]
+        Tc_ = T[idx] - T[idx].mean(0)
+        inn += Tc_.T @ Tc_
+      inn /= N
+      ctx.require('within_chunk_covariance_of_transformed_data_is_identity', ctx.cond(np.allclose(inn, np.eye(T.shape[1]), atol=1e-6)))
   return fn
 
 
@@ -374,13 +375,14 @@ def cases(tier, seed):
                   concrete_only=True, validate=1, cost=1))
   out.append(case('inv_sqrtm_d1', inv_sqrtm_case(1), FUNCS, 'arbitrary positive 1x1 matrix', cost=1, validate=4))
   out.append(case('inv_sqrtm_d2', inv_sqrtm_case(2), FUNCS, 'arbitrary symmetric positive definite 2x2 matrix, eigh by contract', cost=20, proof_timeout_ms=120000, validate=4))
-  for ch, d, red, tiers in (((0, 0, 1, 1), 2, False, Q), ((0, 0, 1, 1, -1), 2, False, Q), ((0, -1, 1, 0, 1), 2, False, Q), ((0, 0, 1, 1, 2, 2), 2, True, Q),
+  for ch, d, red, tiers in (((0, 0, 1, 1), 2, False, Q), ((0, 0, 1, 1, -1), 2, False, Q), ((0, -1, 1, 0, 1), 2, False, Q), ((0, 0, 1, 1, 2, 2), 2, True, Q), ((0, 0, -1, 1, 1), 2, True, Q),
                             ((0, 0, 1, 1, -1, 2, 2), 2, True, T), ((0, 0, 0, 1, 1), 1, False, T)):
     out.append(case('rca_%s_d%d_%s' % (''.join('u' if c < 0 else str(c) for c in ch), d, 'reduced' if red else 'full'), rca_case(ch, d, red), FUNCS,
                     'chunk labels %s (-1 = no chunk), arbitrary points in R^%d, %s' % (list(ch), d, 'n_components=1 (Fisher step, lstsq/eig recorded)' if red else 'full dimension'),
                     tiers=tiers, cost=10, validate=4))
   out.append(case('rca_kept_direction', rca_direction_case(), FUNCS, 'fixed data, arbitrary spectrum returned by eig: which direction is kept', cost=3, validate=0))
-  for labels, d, k in (((0, 0, 0, 0, 1, 1, 1), 2, 1), ((0, 1, 2, 0, 1, 2, 0, 1, 2, 0), 3, 2), ((0, 0, 0, 1, 1, 1), 2, 1), ((0, 1, 0, 1, 0), 2, 1)):
+  for labels, d, k in (((0, 0, 0, 0, 1, 1, 1), 2, 1), ((0, 1, 2, 0, 1, 2, 0, 1, 2, 0), 3, 2), ((0, 0, 0, 1, 1, 1), 2, 1), ((0, 1, 0, 1, 0), 2, 1),
+                       ((0, 0, 0, 0, 0, 1, 1), 4, 3), ((0, 1, 0, 0, 2, 0, 1, 2, 1, 0), 3, 2)):   # unbalanced: a small class after a larger one (per-class clamp of k)
     out.append(case('lfda_sampled_%s_d%d_k%d' % (''.join(map(str, labels)), d, k), lfda_case(labels, d, k, 'weighted'), FUNCS,
                     'labels %s, 8 random data sets in R^%d, k=%d: scatter matrices handed to the eigen-solver vs the documented definition (sampled, not solver-decided)' % (list(labels), d, k),
                     concrete_only=True, validate=8, cost=2))
